@@ -298,7 +298,7 @@ def subchecks():
     subs = []
     for op in ops.OPS:
         subs.append(SubCheck(op.name, make_check(op), (lambda op=op: ops.full_case(op, need_grad=False)),
-                             quick=250, thorough=4000, shards_quick=1, shards_thorough=2))
+                             quick=500, thorough=4000, shards_quick=2, shards_thorough=4))
     subs.append(SubCheck("constructors", check_ctor, ctor_cases, quick=600, thorough=8000, shards_thorough=2))
     subs.append(SubCheck("iteration", check_iter, iter_cases, quick=300, thorough=5000, shards_thorough=2))
     return subs
